@@ -20,7 +20,10 @@ Lemma ehlo_units hello s : shut s = false -> panic s = false -> Forall (allowed 
   let x := ehlo hello s in
   Forall (allowed hello) (ulog (snd x)) /\ (fst x = Ok tt -> shut (snd x) = false /\ panic (snd x) = false).
 Proof.
-  intros Hs Hp Ha. unfold ehlo. fold (EHLO_LINE hello).
+  intros Hs Hp Ha. unfold ehlo. destruct (hello_ok hello).
+  2:{ cbn [fst snd]. destruct (abort_units s) as (B1 & B2 & _ & B4). split; [|discriminate].
+      eapply allowed_units; [exact B4| |exact Ha]. unfold quit_tail. rewrite Hp, Hs. constructor; [right; right; reflexivity|constructor]. }
+  unfold ehlo_send. fold (EHLO_LINE hello).
   pose proof (try_command (EHLO_LINE hello) s Hs Hp) as T.
   destruct (try_smtp (command (EHLO_LINE hello) s)) as [[r|e|] s1]; cbn [step_post] in T.
   - destruct T as (N & S1 & P1 & _ & _).
